@@ -665,7 +665,7 @@ def export_waveforms(
     for waveforms in iter_waveforms(
             traces, spike_samples, spike_channels, n_samples_waveforms=n_samples_waveforms,
             cache=cache):
-        writer.append((waveforms * sample2unit).astype(dtype, copy=False))
+        writer.append(waveforms.astype(dtype, copy=False) * sample2unit)
         size_written += waveforms.size
     writer.close()
     assert prod(shape) == size_written
